@@ -322,6 +322,9 @@ impl LruManager {
 
     /// Find the latest `.lru` file in the data directory.
     ///
+    /// Generations wrap from `u64::MAX` to 1 (see `bump_generation`), so
+    /// "latest" is decided on the circle: a generation is newer than another
+    /// one when it lies less than half the range ahead of it.
     pub fn find_latest_lru_file(dir: &Path) -> Option<(u64, PathBuf)> {
         let read_dir = std::fs::read_dir(dir).ok()?;
         let mut best: Option<(u64, PathBuf)> = None;
@@ -330,9 +333,9 @@ impl LruManager {
             let name = entry.file_name();
             let name_str = name.to_str()?;
             if let Some(file_gen) = lru_file::filename_to_generation(name_str)
-                && best
-                    .as_ref()
-                    .is_none_or(|(best_gen, _)| file_gen > *best_gen)
+                && best.as_ref().is_none_or(|(best_gen, _)| {
+                    file_gen != *best_gen && file_gen.wrapping_sub(*best_gen) < 1 << 63
+                })
             {
                 best = Some((file_gen, entry.path()));
             }
